@@ -1318,7 +1318,10 @@ func (f *Field) importValue(columnIDs []uint64, values []int64, options *ImportO
 			baseValues[i] = value - bsig.Base
 		}
 
-		if err := frag.importValue(data.ColumnIDs, baseValues, requiredDepth, options.Clear); err != nil {
+		// Write with the field's bit depth, not just the depth this batch
+		// needs: otherwise the high bits of a larger value stored earlier in
+		// the same column survive and the column reads a value never written.
+		if err := frag.importValue(data.ColumnIDs, baseValues, bsig.BitDepth, options.Clear); err != nil {
 			return err
 		}
 	}
